@@ -563,10 +563,10 @@ func tabGroup(op string) string {
 func c19lin(c *run.Ctx) {
 	c.Need("c19_histories_checked", 1)
 	n := c.N(160, 6000)
-	ctx := context.Background()
 	model := porcupine.Model{
-		Init: func() interface{} { return "" },
-		Step: storeStep,
+		Init:  func() interface{} { return linState{digest: world.StructuralDigest(storage.NewMemoryStore())} },
+		Step:  replicaStep,
+		Equal: func(a, b interface{}) bool { return a.(linState).digest == b.(linState).digest },
 		Partition: func(h []porcupine.Operation) [][]porcupine.Operation {
 			g := map[string][]porcupine.Operation{}
 			for _, o := range h {
@@ -601,12 +601,6 @@ func c19lin(c *run.Ctx) {
 		start := make(chan struct{})
 		keys := []string{"k1", "k2", "k3"}
 		reqs := []string{"r1", "r2"}
-		mkReq := func(id string) *fosite.Request {
-			q := fosite.NewRequest()
-			q.ID = id
-			q.Session = world.NewSess("u")
-			return q
-		}
 		for cl := 0; cl < nClients; cl++ {
 			wg.Add(1)
 			seed := r.Int63() + int64(cl)
@@ -625,73 +619,7 @@ func c19lin(c *run.Ctx) {
 						in.Tab = pick(rr, []string{"pkce", "oidc", "par"})
 					}
 					t0 := atomic.AddInt64(&clock, 1)
-					var out string
-					switch in.Op {
-					case "at-create":
-						out = errStr(mem.CreateAccessTokenSession(ctx, in.Key, mkReq(in.Req)))
-					case "at-get":
-						_, err := mem.GetAccessTokenSession(ctx, in.Key, nil)
-						out = errStr(err)
-					case "at-del":
-						out = errStr(mem.DeleteAccessTokenSession(ctx, in.Key))
-					case "at-revoke":
-						out = errStr(mem.RevokeAccessToken(ctx, in.Req))
-					case "rt-create":
-						out = errStr(mem.CreateRefreshTokenSession(ctx, in.Key, "", mkReq(in.Req)))
-					case "rt-get":
-						_, err := mem.GetRefreshTokenSession(ctx, in.Key, nil)
-						out = errStr(err)
-					case "rt-del":
-						out = errStr(mem.DeleteRefreshTokenSession(ctx, in.Key))
-					case "rt-revoke":
-						out = errStr(mem.RevokeRefreshToken(ctx, in.Req))
-					case "code-create":
-						out = errStr(mem.CreateAuthorizeCodeSession(ctx, in.Key, mkReq(in.Req)))
-					case "code-get":
-						_, err := mem.GetAuthorizeCodeSession(ctx, in.Key, nil)
-						out = errStr(err)
-					case "code-inval":
-						out = errStr(mem.InvalidateAuthorizeCodeSession(ctx, in.Key))
-					case "kv-create":
-						switch in.Tab {
-						case "pkce":
-							out = errStr(mem.CreatePKCERequestSession(ctx, in.Key, mkReq(in.Req)))
-						case "oidc":
-							out = errStr(mem.CreateOpenIDConnectSession(ctx, in.Key, mkReq(in.Req)))
-						case "par":
-							ar := fosite.NewAuthorizeRequest()
-							ar.ID = in.Req
-							out = errStr(mem.CreatePARSession(ctx, in.Key, ar))
-						}
-					case "kv-get":
-						var q fosite.Requester
-						var err error
-						switch in.Tab {
-						case "pkce":
-							q, err = mem.GetPKCERequestSession(ctx, in.Key, nil)
-						case "oidc":
-							q, err = mem.GetOpenIDConnectSession(ctx, in.Key, nil)
-						case "par":
-							q, err = mem.GetPARSession(ctx, in.Key)
-						}
-						out = errStr(err)
-						if err == nil {
-							out = "ok:" + q.GetID()
-						}
-					case "kv-del":
-						switch in.Tab {
-						case "pkce":
-							out = errStr(mem.DeletePKCERequestSession(ctx, in.Key))
-						case "oidc":
-							out = errStr(mem.DeleteOpenIDConnectSession(ctx, in.Key))
-						case "par":
-							out = errStr(mem.DeletePARSession(ctx, in.Key))
-						}
-					case "jti-set":
-						out = errStr(mem.SetClientAssertionJWT(ctx, in.Key, time.Now().Add(time.Hour)))
-					case "jti-valid":
-						out = errStr(mem.ClientAssertionJWTValid(ctx, in.Key))
-					}
+					out := applySop(mem, in)
 					t1 := atomic.AddInt64(&clock, 1)
 					mu.Lock()
 					hist = append(hist, porcupine.Operation{ClientId: cl, Input: in, Call: t0, Output: out, Return: t1})
@@ -725,6 +653,108 @@ func c19lin(c *run.Ctx) {
 			c.Sample(map[string]interface{}{"store_history_prefix": lines, "verdict": fmt.Sprint(res)})
 		}
 	}
+}
+
+// applySop performs one store operation of the linearizability workload and renders its result. The same function drives the
+// concurrent history and the sequential replica the history is judged against.
+func applySop(mem *storage.MemoryStore, in sop) string {
+	ctx := context.Background()
+	mkReq := func(id string) *fosite.Request {
+		q := fosite.NewRequest()
+		q.ID = id
+		q.Session = world.NewSess("u")
+		return q
+	}
+	var out string
+	switch in.Op {
+	case "at-create":
+		out = errStr(mem.CreateAccessTokenSession(ctx, in.Key, mkReq(in.Req)))
+	case "at-get":
+		_, err := mem.GetAccessTokenSession(ctx, in.Key, nil)
+		out = errStr(err)
+	case "at-del":
+		out = errStr(mem.DeleteAccessTokenSession(ctx, in.Key))
+	case "at-revoke":
+		out = errStr(mem.RevokeAccessToken(ctx, in.Req))
+	case "rt-create":
+		out = errStr(mem.CreateRefreshTokenSession(ctx, in.Key, "", mkReq(in.Req)))
+	case "rt-get":
+		_, err := mem.GetRefreshTokenSession(ctx, in.Key, nil)
+		out = errStr(err)
+	case "rt-del":
+		out = errStr(mem.DeleteRefreshTokenSession(ctx, in.Key))
+	case "rt-revoke":
+		out = errStr(mem.RevokeRefreshToken(ctx, in.Req))
+	case "code-create":
+		out = errStr(mem.CreateAuthorizeCodeSession(ctx, in.Key, mkReq(in.Req)))
+	case "code-get":
+		_, err := mem.GetAuthorizeCodeSession(ctx, in.Key, nil)
+		out = errStr(err)
+	case "code-inval":
+		out = errStr(mem.InvalidateAuthorizeCodeSession(ctx, in.Key))
+	case "kv-create":
+		switch in.Tab {
+		case "pkce":
+			out = errStr(mem.CreatePKCERequestSession(ctx, in.Key, mkReq(in.Req)))
+		case "oidc":
+			out = errStr(mem.CreateOpenIDConnectSession(ctx, in.Key, mkReq(in.Req)))
+		case "par":
+			ar := fosite.NewAuthorizeRequest()
+			ar.ID = in.Req
+			out = errStr(mem.CreatePARSession(ctx, in.Key, ar))
+		}
+	case "kv-get":
+		var q fosite.Requester
+		var err error
+		switch in.Tab {
+		case "pkce":
+			q, err = mem.GetPKCERequestSession(ctx, in.Key, nil)
+		case "oidc":
+			q, err = mem.GetOpenIDConnectSession(ctx, in.Key, nil)
+		case "par":
+			q, err = mem.GetPARSession(ctx, in.Key)
+		}
+		out = errStr(err)
+		if err == nil {
+			out = "ok:" + q.GetID()
+		}
+	case "kv-del":
+		switch in.Tab {
+		case "pkce":
+			out = errStr(mem.DeletePKCERequestSession(ctx, in.Key))
+		case "oidc":
+			out = errStr(mem.DeleteOpenIDConnectSession(ctx, in.Key))
+		case "par":
+			out = errStr(mem.DeletePARSession(ctx, in.Key))
+		}
+	case "jti-set":
+		out = errStr(mem.SetClientAssertionJWT(ctx, in.Key, time.Now().Add(time.Hour)))
+	case "jti-valid":
+		out = errStr(mem.ClientAssertionJWTValid(ctx, in.Key))
+	}
+	return out
+}
+
+// linState is the state of the sequential specification: the operations applied so far (replayed on a fresh reference store
+// for every step) and the structural digest of the store they produce (equal digests = equal states).
+type linState struct {
+	ops    []sop
+	digest string
+}
+
+// replicaStep: the specification of a store operation is the store itself, run sequentially. An operation is explained by a
+// linearization iff, applied after the operations ordered before it on a fresh store, it returns what was observed.
+func replicaStep(state, input, output interface{}) (bool, interface{}) {
+	st := state.(linState)
+	in := input.(sop)
+	mem := storage.NewMemoryStore()
+	for _, o := range st.ops {
+		applySop(mem, o)
+	}
+	if applySop(mem, in) != output.(string) {
+		return false, state
+	}
+	return true, linState{ops: append(append([]sop(nil), st.ops...), in), digest: world.StructuralDigest(mem)}
 }
 
 // c19hot: bursts of identical operations on ONE key released from a barrier, the widest window for a
